@@ -65,6 +65,15 @@ CHECKS["C10"] = dict(
     note=NOTE_BASE + "Outside the theorem: float->exact rational and exact rational->nearest float conversions; CPython %-formatting being correctly rounded (modelled as round-half-even).",
     technique="Coq proof (exact integer arithmetic, lia/nia; string-level lemmas for the shared grammar) + correspondence",
     design="4/C10")
+CHECKS["C11"] = dict(
+    text="Theorems for ANY parser, ANY input text and ANY fragmentation: process_terminates_bounded_genuine, any_pieces_terminate_and_deliver_only_genuine, "
+         "retained_at_most_threshold; benign_junk_is_transparent (junk without a known-tag opener changes neither deliveries nor retained data), "
+         "benign_junk_alone_is_silent, corrupt_front_is_abandoned (recovery once more than the threshold has arrived), with 'corrupt' decidable and evaluated "
+         "by the model on generated truncations. Correspondence: the real Buffer vs the model with the parser instantiated by the recorded answers of "
+         "ElementTree.fromstring / from_string, on soups, benign junk, truncation at every position, thresholds {16,128,2048,None}.",
+    note=NOTE_BASE + "The one parser fact used by the junk theorems (an accepted text contains a known-tag opener) is a hypothesis of those theorems, checked on every recorded parser answer.",
+    technique="Coq proof (generic in the parser; invariants by induction on fuel/length) + control-flow correspondence with recorded parser answers",
+    design="4/C11")
 PENDING = {}
 props = [json.loads(l) for l in open(os.path.join(V, "properties.jsonl"))]
 checks, na = [], []
